@@ -17,6 +17,9 @@ def showOut : RepOut → String
   | .ok => "ok"
   | .refused => "refused"
   | .inadmissible => "inadmissible"
+  | .cloned rev chain vals =>
+    s!"clone ok start=ok status=completed early=ok modes=RW rev={rev} chain={",".intercalate chain} data {joinNat vals}"
+  | .cloneFailed => "clone failed start=failed status=error early=ok modes="
   | .data vs => "data " ++ joinNat vs
 
 /-- insertion sort on pairs, for a canonical rendering of the pending punch set -/
@@ -61,6 +64,7 @@ def parseOp (ws : List String) : Option RepOp :=
   | ["lunmap"] => some .lunmap
   | ["rbpromote"] => some .rbPromote
   | ["rbend"] => some .rbEnd
+  | ["clone", n] => some (.clone n)
   | _ => none
 
 /-- observation requests do not change the state -/
@@ -74,6 +78,7 @@ def observe (r : Rep) (ws : List String) : Option String :=
     let uc := (List.range (r.dd.top + 1)).map fun i => if r.dd.uc i then 1 else 0
     let rm := (List.range (r.dd.top + 1)).map fun i => if r.dd.rm i then 1 else 0
     some s!"meta top={r.dd.top} nb={r.dd.nb} uc={joinNat uc} rm={joinNat rm} chain={",".intercalate r.names} head={r.headN} rev={r.rev} mode={modeStr r.mode} open={r.isOpen} ckpt={r.ckpt}"
+  | ["recs"] => if !r.isOpen then some "recs closed" else some ("recs " ++ joinNat r.recs)
   | ["imeta"] =>
     if !r.isOpen then some "imeta closed" else
     let marks := (List.range (r.dd.top + 1)).map fun i => if r.dd.marks i then 1 else 0
